@@ -114,6 +114,10 @@ structure SRel (s s' : RS) : Prop where
 def MRel {α} (R : α → α → Prop) (m m' : M α) : Prop :=
   ∀ s s', SRel s s' → PRel (fun r r' : α × RS => R r.1 r'.1 ∧ SRel r.2 r'.2) (m s) (m' s')
 
+theorem MRel.mono_rel {α} {R S : α → α → Prop} {m m' : M α} (h : MRel R m m') (hRS : ∀ a a', R a a' → S a a') :
+    MRel S m m' :=
+  fun s s' hs => (h s s' hs).mono (fun _ _ hr => ⟨hRS _ _ hr.1, hr.2⟩)
+
 theorem mrel_bind {α β} {R : α → α → Prop} {S : β → β → Prop} {m m' : M α} {f f' : α → M β}
     (hm : MRel R m m') (hf : ∀ a a', R a a' → MRel S (f a) (f' a')) : MRel S (m >>= f) (m' >>= f') := by
   intro s s' hs
